@@ -919,6 +919,18 @@ fn c14_families(th: bool, single: &[Op], last_pos: &[Op]) -> Vec<(Family, usize)
     wl2.extend(lib_worlds(2));
     wl2.extend(lib_worlds(3));
     fams.push((Family { name: "one creation-function value feeds two branches of a pipeline, one cut short; 1-3 subscriptions".into(), pipelines: pp, worlds: Arc::new(wl2), oracles: vec![Oracle::Independence] }, 2));
+    // ... and one branch shares the value through ref_count(): a connection that runs to its terminal leaves
+    // the value as it was for the other branch (one subscription of the whole: what ref_count() does for a
+    // second one after its source has terminated is C13's)
+    let rc = Node::op(Op::RefCount, Node::Src(0));
+    let pr = vec![
+      Node::opx(Op::Concat, rc.clone(), vec![Node::Src(0)]),
+      Node::opx(Op::Concat, Node::Src(0), vec![rc.clone()]),
+      Node::opx(Op::Merge, rc.clone(), vec![Node::Src(0)]),
+      Node::opx(Op::Zip, rc.clone(), vec![Node::Src(0)]),
+      Node::opx(Op::Concat, Node::op(Op::Map(MapF::Inc), rc.clone()), vec![Node::op(Op::Map(MapF::Dbl), Node::Src(0))]),
+    ];
+    fams.push((Family { name: "one creation-function value feeds a ref_count() branch and a plain branch".into(), pipelines: pr, worlds: Arc::new(lib_worlds(1)), oracles: vec![Oracle::Independence] }, 2));
   }
   // (a'') nested: the first subscriber's callback subscribes again to the same Observable value
   let mut w_nest = vec![];
